@@ -1,5 +1,4 @@
-import OjgVerif.JPText.Print
-import OjgVerif.JPText.Parse
+import OjgVerif.JPText.Spec
 /-! # C14 lemmas: `readStr` reads back what `AppendString` writes
 
 `readStr_appendString`: for EVERY byte string `s`, the parser's quoted-string reader applied to
@@ -208,4 +207,408 @@ theorem decodeRune_tail (b : UInt8) (r : Bytes) :
       · simp
   · simp
 
+/-- `s` with every byte outside a valid UTF-8 sequence replaced by U+FFFD (fuel ≥ length) -/
+def sanitize : Nat → Bytes → Bytes
+  | 0, _ => []
+  | _, [] => []
+  | f+1, b :: r =>
+    if jCls b = 56 then
+      if (decodeRune (b :: r)).1 = runeError then
+        0xEF :: 0xBF :: 0xBD :: sanitize f (r.drop ((decodeRune (b :: r)).2 - 1))
+      else b :: (r.take ((decodeRune (b :: r)).2 - 1) ++ sanitize f (r.drop ((decodeRune (b :: r)).2 - 1)))
+    else b :: sanitize f r
+
+theorem appFst_nil {β : Type} (x : Option (List UInt8 × β)) : appFst [] x = x := by
+  cases x <;> simp [appFst]
+
+theorem consFst_appFst {β : Type} (c : UInt8) (pre : List UInt8) (x : Option (List UInt8 × β)) :
+    consFst c (appFst pre x) = appFst (c :: pre) x := by
+  cases x <;> simp [appFst, consFst]
+
+theorem appFst_some {β : Type} (pre s : List UInt8) (r : β) : appFst pre (some (s, r)) = some (pre ++ s, r) := rfl
+theorem consFst_some {β : Type} (c : UInt8) (s : List UInt8) (r : β) : consFst c (some (s, r)) = some (c :: s, r) := rfl
+
+theorem readEsc_plain (pre tail : Bytes) (F : Nat) (hp : ∀ c ∈ pre, c ≠ 39 ∧ c ≠ 92) :
+    readEsc 39 (F + pre.length) (pre ++ tail) = appFst pre (readEsc 39 F tail) := by
+  induction pre with
+  | nil => simp [appFst_nil]
+  | cons c pre ih =>
+    have hc := hp c (by simp)
+    have ih' := ih (fun d hd => hp d (by simp [hd]))
+    have : F + (c :: pre).length = (F + pre.length) + 1 := by simp; omega
+    rw [this]
+    simp only [List.cons_append, readEsc, hc.1, hc.2, ↓reduceIte]
+    rw [ih', consFst_appFst]
+
+theorem readStr_plain (pre tail : Bytes) (hp : ∀ c ∈ pre, c ≠ 39 ∧ c ≠ 92) (ht : tail ≠ []) :
+    readStr 39 (pre ++ tail) = appFst pre (readStr 39 tail) := by
+  induction pre with
+  | nil => simp [appFst_nil]
+  | cons c pre ih =>
+    have hc := hp c (by simp)
+    have ih' := ih (fun d hd => hp d (by simp [hd]))
+    simp only [List.cons_append, readStr, hc.1, hc.2, ↓reduceIte]
+    cases hpt : pre ++ tail with
+    | nil => simp at hpt; exact absurd hpt.2 ht
+    | cons x y =>
+      simp only []
+      rw [← hpt, ih', consFst_appFst]
+
+
+theorem byte_o {b : UInt8} (h : jCls b = 111) : b ≠ 39 ∧ b ≠ 92 := by
+  have := byteOK_all b
+  simp only [byteOK, h, Bool.and_eq_true, Bool.or_eq_true, bne_iff_ne, ne_eq, not_true_eq_false, false_or] at this
+  simpa using this.1.1.1
+
+theorem byte_dot {b : UInt8} (h : jCls b = 46) :
+    hexVal (hexDigit (b >>> 4 &&& 15)) = some (b >>> 4 &&& 15) ∧ hexVal (hexDigit (b &&& 15)) = some (b &&& 15) ∧
+      encodeRune ((0 : UInt8).toNat * 4096 + (0 : UInt8).toNat * 256 + (b >>> 4 &&& 15).toNat * 16 + (b &&& 15).toNat) = [b] := by
+  have := byteOK_all b
+  simp only [byteOK, h, Bool.and_eq_true, Bool.or_eq_true, bne_iff_ne, ne_eq, not_true_eq_false, false_or,
+    beq_iff_eq] at this
+  exact ⟨this.1.1.2.1.1, this.1.1.2.1.2, this.1.1.2.2⟩
+
+theorem byte_8 {b : UInt8} (h : jCls b = 56) : 0x80 ≤ b := by
+  have := byteOK_all b
+  simp only [byteOK, h, Bool.and_eq_true, Bool.or_eq_true, bne_iff_ne, ne_eq, not_true_eq_false, false_or,
+    decide_eq_true_eq] at this
+  exact this.1.2
+
+theorem byte_letter {b : UInt8} (h1 : jCls b ≠ 111) (h2 : jCls b ≠ 46) (h3 : jCls b ≠ 56) :
+    unescLetter (jCls b) = some b := by
+  have := byteOK_all b
+  simp only [byteOK, Bool.and_eq_true, Bool.or_eq_true, beq_iff_eq, h1, h2, h3, false_or] at this
+  exact this.2
+
+theorem ge80_plain {c : UInt8} (h : 0x80 ≤ c) : c ≠ 39 ∧ c ≠ 92 := by
+  have := UInt8.le_iff_toNat_le.mp h
+  simp at this
+  constructor <;> (intro e; subst e; simp at this)
+
+theorem drop_length_le (r : Bytes) (n f : Nat) (h : r.length ≤ f) : (r.drop n).length ≤ f := by
+  simp; omega
+
+theorem decodeRune_width_one (b : UInt8) (r : Bytes) (h : (decodeRune (b :: r)).2 < 2) :
+    (decodeRune (b :: r)).1 = runeError ∨ (decodeRune (b :: r)).1 < 128 := by
+  rw [decodeRune_cons] at h ⊢
+  by_cases c1 : b < 0x80
+  · right
+    have := UInt8.lt_iff_toNat_lt.mp c1
+    simp only [c1, ↓reduceIte]
+    simpa using this
+  left
+  by_cases c2 : b < 0xC2
+  · simp [c1, c2]
+  by_cases c3 : b < 0xE0
+  · simp only [c1, c2, c3, ↓reduceIte] at h ⊢
+    cases r with
+    | nil => rfl
+    | cons b1 t =>
+      simp only [] at h ⊢
+      by_cases hc : isCont b1 = true
+      · simp [hc] at h
+      · simp [hc]
+  by_cases c4 : b < 0xF0
+  · simp only [c1, c2, c3, c4, ↓reduceIte] at h ⊢
+    match r with
+    | [] => rfl
+    | [_] => rfl
+    | b1 :: b2 :: t =>
+      simp only [] at h ⊢
+      by_cases hc : (decide (lo2 b ≤ b1) && decide (b1 ≤ hi2 b) && isCont b2) = true
+      · simp [hc] at h
+      · simp [hc]
+  by_cases c5 : b < 0xF5
+  · simp only [c1, c2, c3, c4, c5, ↓reduceIte] at h ⊢
+    match r with
+    | [] => rfl
+    | [_] => rfl
+    | [_, _] => rfl
+    | b1 :: b2 :: b3 :: t =>
+      simp only [] at h ⊢
+      by_cases hc : (decide (lo2 b ≤ b1) && decide (b1 ≤ hi2 b) && isCont b2 && isCont b3) = true
+      · simp [hc] at h
+      · simp [hc]
+  · simp [c1, c2, c3, c4, c5]
+
+theorem enc2028 : encodeRune (UInt8.toNat 2 * 4096 + UInt8.toNat 0 * 256 + UInt8.toNat 2 * 16 + UInt8.toNat 8) =
+    [UInt8.ofNat 226, UInt8.ofNat 128, UInt8.ofNat 168] := by decide +kernel
+theorem enc2029 : encodeRune (UInt8.toNat 2 * 4096 + UInt8.toNat 0 * 256 + UInt8.toNat 2 * 16 + UInt8.toNat 9) =
+    [UInt8.ofNat 226, UInt8.ofNat 128, UInt8.ofNat 169] := by decide +kernel
+theorem encFFFD : encodeRune (UInt8.toNat 15 * 4096 + UInt8.toNat 15 * 256 + UInt8.toNat 15 * 16 + UInt8.toNat 13) =
+    [0xEF, 0xBF, 0xBD] := by decide +kernel
+
+/-- `readEscStr` reads back the body `AppendString` writes, whatever follows the closing quote -/
+theorem readEsc_body (f : Nat) : ∀ (s rest : Bytes) (F : Nat), s.length ≤ f →
+    (appendStrBody 39 f s).length + 1 ≤ F →
+    readEsc 39 F (appendStrBody 39 f s ++ 39 :: rest) = some (sanitize f s, rest) := by
+  induction f with
+  | zero =>
+    intro s rest F hs hF
+    cases s with
+    | nil =>
+      cases F with
+      | zero => simp [appendStrBody] at hF
+      | succ F => simp [appendStrBody, readEsc, sanitize]
+    | cons b r => simp at hs
+  | succ f ih =>
+    intro s rest F hs hF
+    cases s with
+    | nil =>
+      cases F with
+      | zero => simp [appendStrBody] at hF
+      | succ F => simp [appendStrBody, readEsc, sanitize]
+    | cons b r =>
+      have hr : r.length ≤ f := by simp at hs; omega
+      by_cases ho : jCls b = 111
+      · -- copied
+        have hb := byte_o ho
+        have e : appendStrBody 39 (f + 1) (b :: r) = b :: appendStrBody 39 f r := by simp [appendStrBody, ho]
+        rw [e] at hF ⊢
+        cases F with
+        | zero => simp at hF
+        | succ F =>
+          simp only [List.cons_append, readEsc, hb.1, hb.2, ↓reduceIte]
+          rw [ih r rest F hr (by simp at hF; omega), consFst_some]
+          have : jCls b ≠ 56 := by rw [ho]; decide
+          simp [sanitize, this]
+      by_cases hd : jCls b = 46
+      · have hb := byte_dot hd
+        have e : appendStrBody 39 (f + 1) (b :: r) =
+            92 :: 117 :: 48 :: 48 :: hexDigit (b >>> 4 &&& 15) :: hexDigit (b &&& 15) :: appendStrBody 39 f r := by
+          simp [appendStrBody, hd]
+        rw [e] at hF ⊢
+        cases F with
+        | zero => simp at hF
+        | succ F =>
+          have h48 : hexVal 48 = some 0 := by decide
+          have hu : unescLetter 117 = none := by decide
+          simp only [List.cons_append, readEsc, ↓reduceIte, hu, h48, hb.1, hb.2.1]
+          simp only [show ((117 : UInt8) = 120) = False by decide, ↓reduceIte, Bool.true_or, decide_true]
+          rw [hb.2.2, ih r rest F hr (by simp at hF; omega), appFst_some]
+          have : jCls b ≠ 56 := by rw [hd]; decide
+          simp [sanitize, this]
+      by_cases h8 : jCls b = 56
+      · have hge := byte_8 h8
+        have htail := decodeRune_tail b r
+        have hdl : (r.drop ((decodeRune (b :: r)).2 - 1)).length ≤ f := drop_length_le r _ f hr
+        have hu : unescLetter 117 = none := by decide
+        by_cases r1 : (decodeRune (b :: r)).1 = 0x2028
+        · have e : appendStrBody 39 (f + 1) (b :: r) =
+              92 :: 117 :: 50 :: 48 :: 50 :: 56 :: appendStrBody 39 f (r.drop ((decodeRune (b :: r)).2 - 1)) := by
+            simp [appendStrBody, h8, r1]
+          rw [e] at hF ⊢
+          have hw : 2 ≤ (decodeRune (b :: r)).2 := by
+            rcases Nat.lt_or_ge (decodeRune (b :: r)).2 2 with h | h
+            · rcases decodeRune_width_one b r h with h' | h'
+              · rw [r1] at h'; simp [runeError] at h'
+              · rw [r1] at h'; omega
+            · exact h
+          have h3 := decodeRune_three b r 0x2028 0xE2 0x80 0xA8 (by omega) (by omega) (by omega) (by omega)
+            (by omega) (by omega) r1 hw
+          cases F with
+          | zero => simp at hF
+          | succ F =>
+            simp only [List.cons_append, readEsc, ↓reduceIte, hu, show hexVal 50 = some 2 by decide,
+              show hexVal 48 = some 0 by decide, show hexVal 56 = some 8 by decide,
+              show ((117 : UInt8) = 120) = False by decide, Bool.true_or, decide_true]
+            rw [ih _ rest F hdl (by simp at hF; omega), appFst_some]
+            have ne : (decodeRune (b :: r)).1 ≠ runeError := by rw [r1]; simp [runeError]
+            simp only [sanitize, h8, ne, ↓reduceIte]
+            rw [h3.1] at *
+            have : b :: (List.take (3 - 1) r ++ sanitize f (List.drop (3 - 1) r)) =
+                (b :: List.take 2 r) ++ sanitize f (List.drop 2 r) := by simp
+            rw [this, h3.2, enc2028]
+        by_cases r2 : (decodeRune (b :: r)).1 = 0x2029
+        · have e : appendStrBody 39 (f + 1) (b :: r) =
+              92 :: 117 :: 50 :: 48 :: 50 :: 57 :: appendStrBody 39 f (r.drop ((decodeRune (b :: r)).2 - 1)) := by
+            simp [appendStrBody, h8, r2]
+          rw [e] at hF ⊢
+          have hw : 2 ≤ (decodeRune (b :: r)).2 := by
+            rcases Nat.lt_or_ge (decodeRune (b :: r)).2 2 with h | h
+            · rcases decodeRune_width_one b r h with h' | h'
+              · rw [r2] at h'; simp [runeError] at h'
+              · rw [r2] at h'; omega
+            · exact h
+          have h3 := decodeRune_three b r 0x2029 0xE2 0x80 0xA9 (by omega) (by omega) (by omega) (by omega)
+            (by omega) (by omega) r2 hw
+          cases F with
+          | zero => simp at hF
+          | succ F =>
+            simp only [List.cons_append, readEsc, ↓reduceIte, hu, show hexVal 50 = some 2 by decide,
+              show hexVal 48 = some 0 by decide, show hexVal 57 = some 9 by decide,
+              show ((117 : UInt8) = 120) = False by decide, Bool.true_or, decide_true]
+            rw [ih _ rest F hdl (by simp at hF; omega), appFst_some]
+            have ne : (decodeRune (b :: r)).1 ≠ runeError := by rw [r2]; simp [runeError]
+            simp only [sanitize, h8, ne, ↓reduceIte]
+            rw [h3.1] at *
+            have : b :: (List.take (3 - 1) r ++ sanitize f (List.drop (3 - 1) r)) =
+                (b :: List.take 2 r) ++ sanitize f (List.drop 2 r) := by simp
+            rw [this, h3.2, enc2029]
+        by_cases r3 : (decodeRune (b :: r)).1 = runeError
+        · have r3' : (decodeRune (b :: r)).1 = 65533 := r3
+          have e : appendStrBody 39 (f + 1) (b :: r) =
+              92 :: 117 :: 102 :: 102 :: 102 :: 100 :: appendStrBody 39 f (r.drop ((decodeRune (b :: r)).2 - 1)) := by
+            simp [appendStrBody, h8, r3, runeError]
+          rw [e] at hF ⊢
+          cases F with
+          | zero => simp at hF
+          | succ F =>
+            simp only [List.cons_append, readEsc, ↓reduceIte, hu, show hexVal 102 = some 15 by decide,
+              show hexVal 100 = some 13 by decide,
+              show ((117 : UInt8) = 120) = False by decide, Bool.true_or, decide_true]
+            rw [ih _ rest F hdl (by simp at hF; omega), appFst_some]
+            simp only [sanitize, h8, r3, ↓reduceIte]
+            rw [encFFFD]
+            rfl
+        · -- any other rune: its bytes are copied
+          have e : appendStrBody 39 (f + 1) (b :: r) =
+              (b :: r.take ((decodeRune (b :: r)).2 - 1)) ++ appendStrBody 39 f (r.drop ((decodeRune (b :: r)).2 - 1)) := by
+            simp [appendStrBody, h8, r1, r2, r3]
+          rw [e] at hF ⊢
+          have hp : ∀ c ∈ b :: r.take ((decodeRune (b :: r)).2 - 1), c ≠ 39 ∧ c ≠ 92 := by
+            intro c hc
+            rcases List.mem_cons.mp hc with h | h
+            · subst h; exact ge80_plain hge
+            · exact ge80_plain (htail.2 c h)
+          have hlen : (b :: r.take ((decodeRune (b :: r)).2 - 1)).length ≤ F := by
+            simp only [List.length_append] at hF; omega
+          have hFe : F = (F - (b :: r.take ((decodeRune (b :: r)).2 - 1)).length) +
+              (b :: r.take ((decodeRune (b :: r)).2 - 1)).length := by omega
+          rw [List.append_assoc, hFe, readEsc_plain _ _ _ hp,
+            ih _ rest _ hdl (by simp only [List.length_append] at hF; omega), appFst_some]
+          simp [sanitize, h8, r3]
+      · -- an escape letter
+        have hb := byte_letter ho hd h8
+        have e : appendStrBody 39 (f + 1) (b :: r) = 92 :: jCls b :: appendStrBody 39 f r := by
+          simp [appendStrBody, ho, hd, h8]
+        rw [e] at hF ⊢
+        cases F with
+        | zero => simp at hF
+        | succ F =>
+          simp only [List.cons_append, readEsc, ↓reduceIte, hb]
+          rw [ih r rest F hr (by simp at hF; omega), consFst_some]
+          simp [sanitize, h8]
+
+theorem readStr_of_head_backslash (L tail : Bytes) (h : L.head? = some 92) :
+    readStr 39 (L ++ tail) = readEsc 39 ((L ++ tail).length + 1) (L ++ tail) := by
+  cases L with
+  | nil => simp at h
+  | cons c X =>
+    simp at h
+    subst h
+    simp [readStr]
+
+/-- `readStr` (which changes to `readEscStr` at the first backslash) reads back the body -/
+theorem readStr_body (f : Nat) : ∀ (s rest : Bytes), s.length ≤ f →
+    readStr 39 (appendStrBody 39 f s ++ 39 :: rest) = some (sanitize f s, rest) := by
+  induction f with
+  | zero =>
+    intro s rest hs
+    cases s with
+    | nil => simp [appendStrBody, readStr, sanitize]
+    | cons b r => simp at hs
+  | succ f ih =>
+    intro s rest hs
+    cases s with
+    | nil => simp [appendStrBody, readStr, sanitize]
+    | cons b r =>
+      have hr : r.length ≤ f := by simp at hs; omega
+      -- escape at the head: the whole rest is read by readEscStr
+      have viaEsc : (appendStrBody 39 (f + 1) (b :: r)).head? = some 92 →
+          readStr 39 (appendStrBody 39 (f + 1) (b :: r) ++ 39 :: rest) = some (sanitize (f + 1) (b :: r), rest) := by
+        intro hh
+        rw [readStr_of_head_backslash _ _ hh]
+        exact readEsc_body (f + 1) (b :: r) rest _ hs (by simp only [List.length_append]; omega)
+      by_cases ho : jCls b = 111
+      · have hb := byte_o ho
+        have e : appendStrBody 39 (f + 1) (b :: r) = [b] ++ appendStrBody 39 f r := by simp [appendStrBody, ho]
+        rw [e, List.append_assoc, readStr_plain [b] _ (by intro c hc; simp at hc; subst hc; exact hb) (by simp),
+          ih r rest hr, appFst_some]
+        have : jCls b ≠ 56 := by rw [ho]; decide
+        simp [sanitize, this]
+      by_cases hd : jCls b = 46
+      · exact viaEsc (by simp [appendStrBody, hd])
+      by_cases h8 : jCls b = 56
+      · have hge := byte_8 h8
+        have htail := decodeRune_tail b r
+        have hdl : (r.drop ((decodeRune (b :: r)).2 - 1)).length ≤ f := drop_length_le r _ f hr
+        by_cases r1 : (decodeRune (b :: r)).1 = 0x2028
+        · exact viaEsc (by simp [appendStrBody, h8, r1])
+        by_cases r2 : (decodeRune (b :: r)).1 = 0x2029
+        · exact viaEsc (by simp [appendStrBody, h8, r2])
+        by_cases r3 : (decodeRune (b :: r)).1 = runeError
+        · exact viaEsc (by simp [appendStrBody, h8, r3, runeError])
+        · have e : appendStrBody 39 (f + 1) (b :: r) =
+              (b :: r.take ((decodeRune (b :: r)).2 - 1)) ++ appendStrBody 39 f (r.drop ((decodeRune (b :: r)).2 - 1)) := by
+            simp [appendStrBody, h8, r1, r2, r3]
+          have hp : ∀ c ∈ b :: r.take ((decodeRune (b :: r)).2 - 1), c ≠ 39 ∧ c ≠ 92 := by
+            intro c hc
+            rcases List.mem_cons.mp hc with h | h
+            · subst h; exact ge80_plain hge
+            · exact ge80_plain (htail.2 c h)
+          rw [e, List.append_assoc, readStr_plain _ _ hp (by simp), ih _ rest hdl, appFst_some]
+          simp [sanitize, h8, r3]
+      · exact viaEsc (by simp [appendStrBody, ho, hd, h8])
+
+/-- **Quoted strings round-trip.** For every byte string `s` (a key, a string constant) and whatever
+follows: the parser, having consumed the opening `'`, reads `AppendString(s, '\'')` back as
+`sanitize s` and stops right after the closing quote. -/
+theorem readStr_appendString (s rest : Bytes) :
+    ∃ t, appendString s 39 ++ rest = 39 :: t ∧ readStr 39 t = some (sanitize s.length s, rest) := by
+  refine ⟨appendStrBody 39 s.length s ++ 39 :: rest, ?_, readStr_body s.length s rest (Nat.le_refl _)⟩
+  simp [appendString]
+
+def asciiOK (b : UInt8) : Bool := jCls b == 56 || decide (b < 0x80)
+theorem asciiOK_all (b : UInt8) : asciiOK b = true := forall_byte (p := asciiOK) (by decide +kernel) b
+
+theorem byte_not8 {b : UInt8} (h : jCls b ≠ 56) : b < 0x80 := by
+  have := asciiOK_all b
+  simp only [asciiOK, Bool.or_eq_true, beq_iff_eq, h, false_or, decide_eq_true_eq] at this
+  exact this
+
+/-- on valid UTF-8 nothing is replaced -/
+theorem sanitize_valid (f : Nat) : ∀ s : Bytes, s.length ≤ f → validUtf8 f s = true → sanitize f s = s := by
+  induction f with
+  | zero => intro s hs _; cases s with
+    | nil => rfl
+    | cons b r => simp at hs
+  | succ f ih =>
+    intro s hs hv
+    cases s with
+    | nil => rfl
+    | cons b r =>
+      have hr : r.length ≤ f := by simp at hs; omega
+      have hdl : (r.drop ((decodeRune (b :: r)).2 - 1)).length ≤ f := drop_length_le r _ f hr
+      simp only [validUtf8] at hv
+      split at hv
+      · cases hv
+      rename_i hne
+      have ihd := ih _ hdl hv
+      by_cases h8 : jCls b = 56
+      · by_cases r3 : (decodeRune (b :: r)).1 = runeError
+        · have hw : 2 ≤ (decodeRune (b :: r)).2 := by
+            simp only [r3, true_and, Bool.and_eq_true, decide_eq_true_eq] at hne
+            omega
+          have h3 := decodeRune_three b r 0xFFFD 0xEF 0xBF 0xBD (by omega) (by omega) (by omega) (by omega)
+            (by omega) (by omega) r3 hw
+          simp only [sanitize, h8, r3, ↓reduceIte, ihd]
+          rw [h3.1]
+          have e : b :: r = (b :: r.take 2) ++ r.drop 2 := by simp
+          rw [e, h3.2]
+          simp
+        · simp only [sanitize, h8, r3, ↓reduceIte, ihd]
+          simp
+      · have hlt := byte_not8 h8
+        have e : decodeRune (b :: r) = (b.toNat, 1) := by rw [decodeRune_cons]; simp [hlt]
+        rw [e] at ihd
+        simp only [sanitize, h8, ↓reduceIte]
+        simp at ihd
+        rw [ihd]
+
+/-- a valid UTF-8 key or string constant is read back exactly -/
+theorem readStr_appendString_valid (s rest : Bytes) (h : utf8Ok s = true) :
+    ∃ t, appendString s 39 ++ rest = 39 :: t ∧ readStr 39 t = some (s, rest) := by
+  obtain ⟨t, h1, h2⟩ := readStr_appendString s rest
+  exact ⟨t, h1, by rw [h2, sanitize_valid s.length s (Nat.le_refl _) h]⟩
 end OjgVerif.JPText
